@@ -170,6 +170,9 @@ static void sec_conv(Ctx& c, uint64_t idx) {
         q128 sph = isinfq(tphi) ? (q128)1 : tphi / hypotq(1, tphi); cond = 1 + (double)(R.e * atanq(R.e * sph)); }
       if (normal) c.obs(std::string("auxlat ") + mn + " rel err tan / conditioning [eps] all pairs", err / cond, w);
       double K = (exact ? K_EXACT : K_SERIES) * cond;
+      if (E.ba >= 0.5 && E.ba <= 2 && tmin >= 1e-100Q && tmax <= 1e100Q && from != to) {
+        c.obs(std::string("NORMAL REGIME (0.5<=b/a<=2, 1e-100<=|tan|<=1e100) auxlat ") + mn + " rel err tan [eps]", err, w);
+        c.event(std::string("normal-regime conversions judged/") + mn); }
       if (normal && exact && (from >= 3 || to >= 3) && from != to) {
         const char* bk = E.ba < 0.02 ? "<0.02" : E.ba < 0.05 ? "0.02-0.05" : E.ba < 0.1 ? "0.05-0.1" : E.ba < 0.25 ? "0.1-0.25" : E.ba < 0.5 ? "0.25-0.5" : E.ba <= 2 ? "0.5-2" :
           E.ba <= 3 ? "2-3" : E.ba <= 5 ? "3-5" : E.ba <= 10 ? "5-10" : E.ba <= 30 ? "10-30" : E.ba <= 70 ? "30-70" : ">70";
@@ -205,6 +208,7 @@ static void sec_conv(Ctx& c, uint64_t idx) {
         AuxAngle back = L.Convert(to, from, out, exact);
         double e2 = tan_err_eps(back.y(), back.x(), Tin);
         c.obs(std::string("auxlat ") + mn + " roundtrip rel err tan [eps]", e2, w);
+        if (E.ba >= 0.5 && E.ba <= 2 && tmin >= 1e-100Q && tmax <= 1e100Q) c.obs(std::string("NORMAL REGIME (0.5<=b/a<=2, 1e-100<=|tan|<=1e100) auxlat ") + mn + " roundtrip rel err tan [eps]", e2, w);
         c.obs(std::string("auxlat ") + mn + " roundtrip (" + E.regime + ") rel err tan [eps]", e2, w);
         if (!(e2 <= K_ROUNDTRIP * cond)) {
           std::string key = std::string("law:C15/auxlat/roundtrip/") + mn + "/" + pair;
@@ -666,7 +670,8 @@ static void sec_cross(Ctx& c, uint64_t idx) {
       q128 d = fabsq((q128)ph1 - (q128)ph2); q128 scl = fabsq(sinq(2 * (q128)ph2 * (M_PIq / 180))) / 2;
       double e = scl == 0 ? 0 : (double)((d - 8 * (q128)ref::ulp_d(ph2) > 0 ? d - 8 * (q128)ref::ulp_d(ph2) : 0) * (M_PIq / 180) / scl) / EPS;
       c.obs("cross/InverseConformalLatitude-vs-Math::tauf [tan eps] / conditioning", e / (cond * ces), J(w).f("taup", taup));
-      if (!(e <= 2 * K_EXACT * cond * ces)) c.viol("cross:C15/InverseConformalLatitude-vs-Math::tauf", cls, J(w).f("taup", taup).f("es", es).f("ellipsoid", ph1).f("tauf", ph2));
+      // chi is handed to the wrapper as a rounded number of degrees: near the pole that alone is a relative tangent error of ~ eps |taup|
+      if (!(e <= 2 * K_EXACT * cond * ces + 4 * std::max(1.0, std::fabs(taup)))) c.viol("cross:C15/InverseConformalLatitude-vs-Math::tauf", cls, J(w).f("taup", taup).f("es", es).f("ellipsoid", ph1).f("tauf", ph2));
     }
   }
 }
@@ -726,13 +731,18 @@ static void sec_daux(Ctx& c, uint64_t idx) {
       // swapped) that difference has the absolute error of the angles themselves; reported under its own key, bounded by the model
       double got = L.DRectifying(z1, z2); q128 want = dd(0, ref::AUX_MU);
       double e = (double)(fabsq((q128)got - want) / fabsq(want)) / EPS;
-      double model = same || d1 * d2 < 0 ? 0 : 4 * (M_PI / 2) / (double)fabsq(Dl);
+      double angmax = (double)(R.prolate ? M_PIq / 2 - (fabsq(A1) < fabsq(A2) ? fabsq(A1) : fabsq(A2)) : (fabsq(A1) > fabsq(A2) ? fabsq(A1) : fabsq(A2)));   // size of the angles DE() subtracts
+      double model = same || d1 * d2 < 0 || fabsq(Dl) > 0.1Q ? 0 : 4 * angmax / (double)fabsq(Dl);
       if (std::isnan(got) && !same) { c.count(cls + "/DRectifying", vh::hmix(vh::hmix(86, d1), d2)); c.viol("oracle:C15/daux/DParametric/nan-for-ulp-close-tangents", cls, J(w).str("via", "DRectifying").f("got", got).str("want", ref::qstr(want))); }
       else if (e > K_DD && d1 * d2 < 0 && std::fabs(d1 * (M_PI / 180)) * std::fabs(d2 * (M_PI / 180)) < 2.3e-308) { c.count(cls + "/DRectifying", vh::hmix(vh::hmix(87, d1), d2));
         // x*y underflows, so the "opposite signs" test x*y < 0 fails and the same-sign formula is applied
         c.viol("oracle:C15/daux/DRectifying/opposite-sign-product-underflow", cls, J(w).f("got", got).str("want", ref::qstr(want)).f("err_eps", e)); }
-      else if (e > K_DD && e <= model) { c.count(cls + "/DRectifying", vh::hmix(vh::hmix(85, d1), d2)); c.obs("daux/DRectifying rel err [eps] / (4 (pi/2)/|Delta|)  (cancellation regime)", e / model, J(w).f("got", got).str("want", ref::qstr(want)));
+      else if (e > K_DD && e <= model) { c.count(cls + "/DRectifying", vh::hmix(vh::hmix(85, d1), d2)); c.obs("daux/DRectifying rel err [eps] / (4 max|angle|/|Delta|)  (cancellation regime, |Delta|<=0.1 rad)", e / model, J(w).f("got", got).str("want", ref::qstr(want)));
         c.viol("oracle:C15/daux/DRectifying/angle-difference-cancellation", cls, J(w).f("got", got).str("want", ref::qstr(want)).f("err_eps", e)); }
+      else if (e > K_DD && E.ba < 0.05 && e <= 2 / (E.ba * E.ba)) { c.count(cls + "/DRectifying", vh::hmix(vh::hmix(88, d1), d2));
+        // extreme oblate ellipsoids: DRectifying loses ~1e2..1e3 eps although the rectifying latitude itself is accurate
+        c.obs("daux/DRectifying rel err [eps] (oblate b/a<0.05)", e, J(w).f("got", got).str("want", ref::qstr(want)));
+        c.viol("oracle:C15/daux/DRectifying/oblate-b/a<0.05", cls, J(w).f("got", got).str("want", ref::qstr(want)).f("err_eps", e)); }
       else judge("DRectifying", got, want, K_DD);
     }
     if (std::fabs(d1) < 90 && std::fabs(d2) < 90) {
